@@ -263,8 +263,10 @@ func vpLogState(ls, lu int, snap bool) (*raftLog, vpView) {
 	return l, vpViewOf(l)
 }
 
-func vpLogQueries(ls, lu int) {
-	l, v := vpLogState(ls, lu, true)
+func vpLogQueries(ls, lu int) { vpLogQueriesCase(ls, lu, -1) }
+
+func vpLogQueriesCase(ls, lu int, only int) {
+	l, v := vpLogState(ls, lu, only < 0)
 	vpAssert(vpAnd(l.firstIndex() == v.first, l.lastIndex() == v.last), "C18/log/first-last")
 	i := vpU64()
 	vpAssume(i <= vpMaxIdx*4) // indexes near 2^64 are outside every claim (DESIGN 2.4)
@@ -275,7 +277,11 @@ func vpLogQueries(ls, lu int) {
 		vpAssert(t == v.termAt(i), "C18/log/term-value")
 		vpObserve("term", t)
 	}
-	switch vpChoose(4) {
+	which := only
+	if which < 0 {
+		which = vpChoose(4)
+	}
+	switch which {
 	case 0:
 		tt := vpU64()
 		vpAssert(l.matchTerm(entryID{term: tt, index: i}) == vpAnd(i+1 >= v.first, i <= v.last, v.termAt(i) == tt), "C18/log/matchTerm")
@@ -312,11 +318,14 @@ func vpLogQueries(ls, lu int) {
 			sum += vpSizeOf(e)
 		}
 		vpAssert(vpOr(len(ents) <= 1, sum <= max), "C18/log/slice-fits")
+		vpAssert(uint64(len(ents)) <= hi-lo, "C18/log/slice-within-range")
 		vpAssert(cap(ents) == len(ents), "C18/log/slice-cap-protected")
 	}
 }
 
 func vpH_log_queries_1_1() { vpLogQueries(1, 1) }
+func vpH_log_slice_2_1()   { vpLogQueriesCase(2, 1, 3) }
+func vpH_log_term_2_1()    { vpLogQueriesCase(2, 1, 4) } // first/last/term only; storage may be longer than the log
 func vpH_log_queries_2_2() { vpLogQueries(2, 2) }
 
 // ---------------------------------------------------------------------------
